@@ -109,11 +109,16 @@ func jsonSkel(p interface{}) string {
 
 func jsonObserve(txt string) J {
 	o := J{"pok": false, "perr": false, "jok": false, "agree": false, "skel": "", "panic": false, "perrtext": ""}
+	o["again"] = true
 	var pval interface{}
 	if m := safely(func() {
 		f := text.NewFile("f", []byte(txt))
+		// the same file is evaluated twice (fresh context and reader each time), as the example's benchmark does
+		ctx0 := parsley.NewContext(parsley.NewFileSet(f), text.NewReader(f))
+		v0, err0 := parsley.Evaluate(ctx0, jsonP)
 		ctx := parsley.NewContext(parsley.NewFileSet(f), text.NewReader(f))
 		v, err := parsley.Evaluate(ctx, jsonP)
+		o["again"] = fmt.Sprintf("%v|%v", v0, err0) == fmt.Sprintf("%v|%v", v, err)
 		if err != nil {
 			o["perr"] = true
 			o["perrtext"] = err.Error()
@@ -201,7 +206,7 @@ func jsondocMain(mode string, a args) {
 			}
 			kind := "none"
 			if r.Intn(3) == 0 {
-				kind = []string{"trunc", "trail", "drop"}[r.Intn(3)]
+				kind = []string{"trunc", "trail", "drop", "comma"}[r.Intn(4)]
 			}
 			o.put(J{"v": gen(0, supported), "pat": pat, "kind": kind, "r": r.Intn(1000)})
 		}
